@@ -247,8 +247,19 @@ class VTKWriter:
         allFieldsAreEmpty = not self.cellFields
         if not allFieldsAreEmpty:
             ncells = self.mesh.conns.shape[0]
-            vtkFile.write('CELL_DATA {}\n'.format(ncells))
-            self._write_out_all_fields_in_dict(self.cellFields, vtkFile)
+            # contact edges are written as cells too: give them default values
+            cellFields = dict(self.cellFields)
+            for field in cellFields:
+                fieldRecord = cellFields[field]
+                for edge in self.contactEdges:
+                    uNew = np.vstack( (fieldRecord.data,
+                                       default_values(fieldRecord.fieldType, fieldRecord.dataType)) )
+                    fieldRecord = self.VTKFieldRecord(uNew,
+                                                      fieldRecord.fieldType,
+                                                      fieldRecord.dataType)
+                cellFields[field] = fieldRecord
+            vtkFile.write('CELL_DATA {}\n'.format(ncells + self.contactEdges.shape[0]))
+            self._write_out_all_fields_in_dict(cellFields, vtkFile)
         
         
     def _write_out_all_fields_in_dict(self, fieldDict, vtkFile):
